@@ -67,4 +67,12 @@ def evalNTerm [Mul K] (x : Nat → K) : NTerm K → K
 def evalNRow [Add K] [Mul K] [OfNat K 0] (x : Nat → K) (ts : List (NTerm K)) (b c : K) : K :=
   sumList (ts.map (evalNTerm x)) + b + c
 
+/-- what `from_shapes` reads of a shape: its order and the result of splitting its reconstituted expression against the
+global `x` (used by Generated/PyFromShapes.lean) -/
+structure ShapeRow (K : Type) where
+  order : Nat
+  lin : List K
+  inhom : K
+  nonlin : K
+
 end OdeVerif.Shapes
